@@ -395,3 +395,39 @@ func coalesceFees(ms []wmsg) []wmsg {
 	}
 	return out
 }
+
+// probeLiveReest: party i verifies the peer's commitment_signed (in-memory chain
+// advances, nothing durable yet) and then processes the peer's channel_reestablish
+// on the live object. Every revoke_and_ack it returns goes through the release
+// monitor. The world is dead afterwards (terminal probe).
+func (w *World) probeLiveReest(i int) error {
+	w.dead = true
+	p, q := w.pt[i], w.pt[1-i]
+	m := w.wire[i][0]
+	mm := m.m.(*lnwire.CommitSig)
+	err := p.ch.ReceiveNewCommitment(&lnwallet.CommitSigs{CommitSig: mm.CommitSig, HtlcSigs: mm.HtlcSigs, PartialSig: mm.PartialSig})
+	if err != nil {
+		w.recvErr(p, "ReceiveNewCommitment", err)
+		return nil
+	}
+	peerMsg, err := q.ch.State().ChanSyncMsg()
+	if err != nil {
+		return nil
+	}
+	defer func() {
+		if v := recover(); v != nil {
+			w.violate("probe-live-reest-panic", fmt.Sprintf("%s.ProcessChanSyncMsg panicked on the live channel: %v", p.name, v))
+		}
+	}()
+	msgs, _, _, err := p.ch.ProcessChanSyncMsg(ctxb, peerMsg)
+	if err != nil {
+		// Refusing to resynchronise a live, mid-step channel is acceptable.
+		return nil
+	}
+	for _, r := range msgs {
+		if rev, ok := r.(*lnwire.RevokeAndAck); ok {
+			w.onRevoke(i, rev, true)
+		}
+	}
+	return nil
+}
